@@ -18,7 +18,10 @@ LEVEL = "exploration"
 RULE = ("cases = (psk, server name variant, expected-name setting, message sequence, segmentation of the server byte stream, buffer type); "
         "each case is a fresh handshake of the real APINoiseFrameHelper against the independent responder. Non-trivial = handshake "
         "outcome was judged (readiness call index or BadName) and, for accepted sessions with data, deliveries compared; distinct = "
-        "(name relation, cut-position classes incl. which frame/header is straddled, message-size classes, buffer type)")
+        "(name relation, cut-position classes incl. which frame/header is straddled, message-size classes, buffer type)"
+        " Part S: real APIClient.connect() on the simulated loop against the independent Noise device with its first chunk (hello + handshake [+ 2 data "
+        "frames written right behind the handshake]) cut at EVERY offset, name rule end to end (BadNameAPIError.received_name, nothing sent on), and "
+        "send_messages before readiness (ConnectionNotEstablishedAPIError, zero transport writes).")
 ASSUMPTIONS = [
     "independent NNpsk0 responder (spec-derived, cross-checked against noiseprotocol default backend at setup)",
     "a hello without a device name is accepted whatever the expected name (nothing announced to reject): recorded, not judged",
